@@ -70,13 +70,20 @@ def run (op impl : String) : Ans :=
               else if l != "lc=" ++ renderLc sLc then "FAIL:lc-" ++ cls ++ "-" ++ pstage ++ (if hasPort then "-port" else "")
               else "ok"
             | _ => "FAIL:unparsable"
+        let shapes : List String :=
+          (if T.any (fun t => t.host.contains ':') then ["shape-host-colon"] else [])
+          ++ (if T.any (fun t => t.path != ['*'] && t.path.head? != some '/') then ["shape-path-relative"] else [])
+          ++ (if T.any (fun t => t.path.getLast? == some '*' && t.path.length ≥ 2
+                 && (t.path.dropLast).getLast? != some '/') then ["shape-fo-star"] else [])
+          ++ (if T.any (fun t => t.host == ['*', '.'] || (t.host.head? == some '.') || t.host.getLast? == some '.')
+               then ["shape-host-dots"] else [])
         let others := (T.filter fun t => (hostMatch t.host (normHost (stripPort host))).isSome).length
         { model := m
           verdict := verdict
           tags := [cls, pstage] ++ (if hasPort then ["port"] else [])
                   ++ (if cls != "nohost" && pstage == "pmiss" then ["class-hit-path-miss"] else [])
                   ++ (if T.length ≥ 2 && cls != "nohost" then ["nt"] else [])
-                  ++ (if others ≥ 2 then ["multi-cand"] else []) }
+                  ++ (if others ≥ 2 then ["multi-cand"] else []) ++ shapes }
   | _, _, _ => { model := "bad-op", verdict := "skip" }
 
 end BfeVerif.C11
